@@ -97,7 +97,16 @@ func (propC16) Gen(r *Rand) *Plan {
 			default:
 				in = c16Word(r, 1, 5*size)
 			}
-			ops = append(ops, Op{Op: "read", S: in})
+			if r.Bool(0.25) {
+				// several symbols in a row from one scanner, after some characters were consumed already
+				more := ""
+				for k := r.Range(1, 3); k > 0; k-- {
+					more += syms[r.Intn(len(syms))]
+				}
+				ops = append(ops, Op{Op: "readseq", S: in + more + c16Word(r, 0, 2), I: r.Intn(3)})
+			} else {
+				ops = append(ops, Op{Op: "read", S: in})
+			}
 		}
 	}
 	return &Plan{Scenario: []string{"root", "state"}[r.Intn(2)], Tasks: []TaskPlan{{Ops: ops}}}
@@ -208,6 +217,48 @@ func (propC16) Exec(p *Plan, x *Ctx) *Outcome {
 						out.Probes["unregistered_proper_prefix"]++
 					}
 				}
+			case "readseq":
+				in := []rune(o.S)
+				if len(in) == 0 {
+					continue
+				}
+				// a scanner over "ab"[:I] + input: the prefix is consumed first, then tokens are read until the end
+				prefix := []rune("ab")[:o.I%3]
+				sc := sio.NewStringScanner(string(prefix) + o.S)
+				for range prefix {
+					sc.Read()
+				}
+				pos := 0
+				for pos < len(in) {
+					wantText := string(in[pos : pos+1])
+					wantType := -1
+					for l := len(in) - pos; l >= 1; l-- {
+						if t, ok := model[string(in[pos:pos+l])]; ok {
+							wantText, wantType = string(in[pos:pos+l]), t
+							break
+						}
+					}
+					var tok *tokenizers.Token
+					if state != nil {
+						tok = state.NextToken(sc, nil)
+					} else {
+						tok = root.NextToken(sc)
+					}
+					reads++
+					out.Event("readseq %q@%d -> %d %q", o.S, pos, tok.Type(), tok.Value())
+					if tok.Value() != wantText || (wantType >= 0 && tok.Type() != wantType) {
+						out.Violate("longest-match", fmt.Sprintf("C16/readseq/len%d", len([]rune(wantText))),
+							"op %d: reading %q symbol by symbol (after a consumed prefix of %d) with symbols %v: at offset %d got type %d text %q; longest registered prefix there is %q of type %d",
+							i, o.S, len(prefix), c16Syms(model), pos, tok.Type(), tok.Value(), wantText, wantType)
+						return
+					}
+					pos += len([]rune(wantText))
+				}
+				if rest := sc.Read(); rest != -1 {
+					out.Violate("longest-match", "C16/readseq/consumed", "op %d: after reading all symbols of %q the scanner still has characters (next %q)", i, o.S, string(rest))
+					return
+				}
+				out.Probes["symbols_read_in_sequence"]++
 			case "read":
 				in := []rune(o.S)
 				if len(in) == 0 {
